@@ -2,6 +2,470 @@
 
 package controller
 
-import "verif.local/vsim"
+import (
+	"encoding/base64"
+	"encoding/json"
+	"fmt"
+	"net/http"
+	"net/url"
+	"sort"
+	"strings"
+	"time"
 
-func scenC19(w *vsim.World, spec *vsim.Spec) {}
+	"verif.local/vsim"
+)
+
+// ---- C19: a user's token secret never leaves the cluster unsalted ---------------------------
+
+type c19tok struct {
+	text   string
+	kind   string // v2-39 v2-40 v2-41 v2-50 v2-extra v2-salted legacy-known legacy-unknown opaque
+	secret string // what must not appear on the wire to a remote ("" = nothing to protect)
+	owner  string // cluster prefix of the token's uuid (legacy-known: of its table row)
+}
+
+func (t *c19tok) class() string {
+	switch {
+	case t.kind == "v2-40":
+		return "v2-40char"
+	case strings.HasPrefix(t.kind, "v2"):
+		return "v2"
+	case t.kind == "legacy-known":
+		return "legacy"
+	}
+	return t.kind
+}
+
+func genC19Token(w *vsim.World, rnd *vsim.Rand, owners []string, tt *tokenTable, n int, noLegacyFormat bool) *c19tok {
+	kinds := []string{"v2-50", "v2-41", "v2-39", "v2-extra", "v2-salted", "legacy-known", "legacy-unknown", "opaque", "v2-40"}
+	nk := len(kinds)
+	if fedSkipKnown() {
+		nk-- // no 40-character unsalted secrets (known finding auth.SaltToken:40-char-secret)
+	}
+	kind := kinds[w.Choose(fmt.Sprintf("token%d-kind", n), nk)]
+	if noLegacyFormat && strings.HasPrefix(kind, "legacy-") {
+		kind = "v2-50"
+	}
+	owner := owners[w.Choose(fmt.Sprintf("token%d-owner", n), len(owners))]
+	uuid := owner + "-gj3su-" + randAlnum(rnd, 15)
+	t := &c19tok{kind: kind, owner: owner}
+	switch kind {
+	case "v2-39", "v2-40", "v2-41", "v2-50":
+		l := map[string]int{"v2-39": 39, "v2-40": 40, "v2-41": 41, "v2-50": 50}[kind]
+		t.secret = randAlnum(rnd, l)
+		for refHex40.MatchString(t.secret) {
+			t.secret = randAlnum(rnd, l)
+		}
+		t.text = "v2/" + uuid + "/" + t.secret
+	case "v2-extra":
+		t.secret = randAlnum(rnd, 41+rnd.Intn(10))
+		t.text = "v2/" + uuid + "/" + t.secret + "/" + owner + "-dz642-" + randAlnum(rnd, 15)
+	case "v2-salted":
+		t.text = "v2/" + uuid + "/" + randHex(rnd, 40)
+	case "legacy-known":
+		t.text = randAlnum(rnd, 41+rnd.Intn(20))
+		t.secret = t.text
+		tt.rows = append(tt.rows, tokenRow{UUID: uuid, Secret: t.text, UserUUID: owner + "-tpzed-" + randAlnum(rnd, 15)})
+	case "legacy-unknown":
+		t.text = randAlnum(rnd, 41+rnd.Intn(20))
+	case "opaque":
+		t.text = []string{"ya29." + randAlnum(rnd, 30) + "-_" + randAlnum(rnd, 8), randAlnum(rnd, 20), "xyzzy", "v1/" + randAlnum(rnd, 45), strings.ToUpper(randAlnum(rnd, 45))}[rnd.Intn(5)]
+	}
+	return t
+}
+
+type c19shape struct {
+	name   string
+	legacy int // 0: needs ForceLegacyAPI14=false, 1: needs true, 2: either
+	method string
+	path   func(g *c19gen) string
+	params func(g *c19gen) url.Values
+	write  bool
+	fanout bool
+}
+
+type c19gen struct {
+	rnd     *vsim.Rand
+	remotes []string
+	target  string // remote cluster of single-object shapes
+}
+
+func (g *c19gen) uuid(cluster, infix string) string {
+	return cluster + "-" + infix + "-" + randAlnum(g.rnd, 15)
+}
+
+func (g *c19gen) listParams(infix string) url.Values {
+	var uu []string
+	for _, r := range g.remotes {
+		uu = append(uu, g.uuid(r, infix))
+	}
+	uu = append(uu, g.uuid(homeID, infix))
+	b, _ := json.Marshal([][]any{{"uuid", "in", uu}})
+	return url.Values{"filters": {string(b)}, "count": {"none"}}
+}
+
+var c19shapes = []c19shape{
+	{name: "collection-by-pdh", legacy: 2, method: "GET", fanout: true, path: func(g *c19gen) string {
+		return "/arvados/v1/collections/" + randHex(g.rnd, 32) + "+123"
+	}},
+	{name: "collection-by-uuid", legacy: 2, method: "GET", path: func(g *c19gen) string { return "/arvados/v1/collections/" + g.uuid(g.target, "4zz18") }},
+	{name: "container-request-by-uuid", legacy: 2, method: "GET", path: func(g *c19gen) string { return "/arvados/v1/container_requests/" + g.uuid(g.target, "xvhdp") }},
+	{name: "group-by-uuid", legacy: 0, method: "GET", path: func(g *c19gen) string { return "/arvados/v1/groups/" + g.uuid(g.target, "j7d0g") }},
+	{name: "collection-list", legacy: 2, method: "GET", fanout: true, path: func(g *c19gen) string { return "/arvados/v1/collections" },
+		params: func(g *c19gen) url.Values { return g.listParams("4zz18") }},
+	{name: "container-request-list", legacy: 2, method: "GET", fanout: true, path: func(g *c19gen) string { return "/arvados/v1/container_requests" },
+		params: func(g *c19gen) url.Values { return g.listParams("xvhdp") }},
+	{name: "workflow-by-uuid", legacy: 2, method: "GET", path: func(g *c19gen) string { return "/arvados/v1/workflows/" + g.uuid(g.target, "7fd4e") }},
+	{name: "container-by-uuid", legacy: 2, method: "GET", path: func(g *c19gen) string { return "/arvados/v1/containers/" + g.uuid(g.target, "dz642") }},
+	{name: "link-by-uuid", legacy: 2, method: "GET", path: func(g *c19gen) string { return "/arvados/v1/links/" + g.uuid(g.target, "o0j2j") }},
+	{name: "container-list", legacy: 2, method: "GET", fanout: true, path: func(g *c19gen) string { return "/arvados/v1/containers" },
+		params: func(g *c19gen) url.Values { return g.listParams("dz642") }},
+	{name: "workflow-list", legacy: 2, method: "GET", fanout: true, path: func(g *c19gen) string { return "/arvados/v1/workflows" },
+		params: func(g *c19gen) url.Values { return g.listParams("7fd4e") }},
+	{name: "workflow-update", legacy: 2, method: "PUT", write: true, path: func(g *c19gen) string { return "/arvados/v1/workflows/" + g.uuid(g.target, "7fd4e") },
+		params: func(g *c19gen) url.Values { return url.Values{"workflow": {`{"name":"renamed"}`}} }},
+	{name: "workflow-create-at-remote", legacy: 2, method: "POST", write: true, path: func(g *c19gen) string { return "/arvados/v1/workflows" },
+		params: func(g *c19gen) url.Values {
+			return url.Values{"workflow": {`{"name":"new"}`}, "cluster_id": {g.target}}
+		}},
+	{name: "link-delete", legacy: 2, method: "DELETE", write: true, path: func(g *c19gen) string { return "/arvados/v1/links/" + g.uuid(g.target, "o0j2j") }},
+	{name: "collection-update", legacy: 2, method: "PUT", write: true, path: func(g *c19gen) string { return "/arvados/v1/collections/" + g.uuid(g.target, "4zz18") },
+		params: func(g *c19gen) url.Values { return url.Values{"collection": {`{"name":"renamed"}`}} }},
+}
+
+var c19placements = []string{"bearer", "oauth2", "basic", "query", "form", "cookie"}
+
+type c19plan struct {
+	shape  string
+	req    *clientReq
+	tokens []*c19tok // in the request, by placement order
+	places []string
+}
+
+// wireHaystacks returns every piece of text of a forwarded request in which a secret could
+// ride, labelled with where it was found.
+func wireHaystacks(r *vsim.NetRequest) [][2]string {
+	var hs [][2]string
+	names := make([]string, 0, len(r.Header))
+	for k := range r.Header {
+		names = append(names, k)
+	}
+	sort.Strings(names)
+	for _, k := range names {
+		loc := "header:" + strings.ToLower(k)
+		if k == "Authorization" {
+			loc = "authorization"
+		} else if k == "Cookie" {
+			loc = "cookie"
+		}
+		for _, v := range r.Header[k] {
+			hs = append(hs, [2]string{loc, v})
+			for _, piece := range strings.FieldsFunc(v, func(c rune) bool { return c == ' ' || c == ';' || c == ',' || c == '=' && k == "Cookie" }) {
+				for _, enc := range []*base64.Encoding{base64.StdEncoding, base64.URLEncoding, base64.RawStdEncoding, base64.RawURLEncoding} {
+					if d, err := enc.DecodeString(piece); err == nil && len(d) > 0 {
+						hs = append(hs, [2]string{loc, string(d)})
+					}
+				}
+			}
+		}
+	}
+	hs = append(hs, [2]string{"query", r.Query})
+	if u, err := url.QueryUnescape(r.Query); err == nil {
+		hs = append(hs, [2]string{"query", u})
+	}
+	hs = append(hs, [2]string{"body", string(r.Body)})
+	if u, err := url.QueryUnescape(string(r.Body)); err == nil {
+		hs = append(hs, [2]string{"body", u})
+	}
+	return hs
+}
+
+func scenC19(w *vsim.World, spec *vsim.Spec) {
+	rnd := w.NewRand("gen")
+	nRemotes := w.Range("remotes", 1, 4)
+	tt := &tokenTable{}
+	cfg := fedConfig{
+		remotes:  allRemoteIDs[:nRemotes],
+		legacy:   w.Chance("force-legacy-api14", 400),
+		wildcard: w.Chance("wildcard-remote", 300),
+		maxItems: 1000,
+		maxAmp:   []int{0, nRemotes + 1, nRemotes + 4}[w.Choose("max-amplification", 3)],
+		timeout:  300 * time.Second,
+		tokens:   tt,
+	}
+	owners := append([]string{homeID}, cfg.remotes...)
+	owners = append(owners, "zqqqq") // a cluster this one has no configuration for
+	g := &c19gen{rnd: rnd, remotes: cfg.remotes}
+
+	// ---- workload: 1-3 requests, each with 1-3 tokens in different places ----------------
+	var plans []*c19plan
+	nReq := 1 + w.Choose("requests", 3)
+	ntok := 0
+	for i := 0; i < nReq; i++ {
+		var ok []c19shape
+		for _, s := range c19shapes {
+			if s.legacy == 2 || (s.legacy == 1) == cfg.legacy {
+				ok = append(ok, s)
+			}
+		}
+		sh := ok[w.Choose("shape", len(ok))]
+		g.target = cfg.remotes[w.Choose("target", nRemotes)]
+		p := &c19plan{shape: sh.name}
+		// A legacy-format token makes every per-remote goroutine of a router fan-out ask the
+		// local Rails API the same question at the same time; those requests are
+		// indistinguishable on the wire, so which goroutine is served first would be decided
+		// by the Go runtime. Legacy-format tokens therefore ride on fan-out requests only
+		// when a single remote is involved.
+		viaRouter := !cfg.legacy && (strings.HasPrefix(sh.name, "collection") || strings.HasPrefix(sh.name, "container-request") || strings.HasPrefix(sh.name, "group"))
+		noLegacyFormat := sh.fanout && viaRouter && nRemotes > 1
+		cr := &clientReq{Method: sh.method, Path: sh.path(g), Header: http.Header{}}
+		params := url.Values{}
+		if sh.params != nil {
+			params = sh.params(g)
+		}
+		nPlaces := 1 + w.Choose("extra-tokens", 3)
+		used := map[string]bool{}
+		form := url.Values{}
+		for k := 0; k < nPlaces; k++ {
+			np := len(c19placements)
+			if sh.method == "DELETE" {
+				np-- // no form body on DELETE: cookie is reachable through index shift below
+			}
+			pl := c19placements[w.Choose("placement", np)]
+			if sh.method == "DELETE" && pl == "form" {
+				pl = "cookie"
+			}
+			if pl == "oauth2" || pl == "basic" || pl == "bearer" {
+				if used["authorization"] {
+					continue
+				}
+				used["authorization"] = true
+			}
+			if used[pl] {
+				continue
+			}
+			used[pl] = true
+			var t *c19tok
+			if len(p.tokens) > 0 && w.Chance("same-token-again", 200) {
+				t = p.tokens[0]
+			} else {
+				t = genC19Token(w, rnd, owners, tt, ntok, noLegacyFormat)
+				ntok++
+			}
+			p.tokens = append(p.tokens, t)
+			p.places = append(p.places, pl)
+			switch pl {
+			case "bearer":
+				cr.Header.Set("Authorization", "Bearer "+t.text)
+			case "oauth2":
+				cr.Header.Set("Authorization", "OAuth2 "+t.text)
+			case "basic":
+				cr.Header.Set("Authorization", "Basic "+base64.StdEncoding.EncodeToString([]byte("someuser:"+t.text)))
+			case "query":
+				params2 := url.Values{"api_token": {t.text}}
+				cr.Query = params2.Encode()
+			case "form":
+				form.Set("api_token", t.text)
+			case "cookie":
+				cr.Header.Set("Cookie", "arvados_api_token="+base64.URLEncoding.EncodeToString([]byte(t.text)))
+			}
+		}
+		// where do the API parameters go: query string, or a form body (POST with _method for reads)
+		inForm := used["form"] || (sh.method != "DELETE" && w.Chance("params-in-form", 300))
+		if sh.write && sh.method != "DELETE" {
+			inForm = true
+		}
+		if inForm {
+			for k, v := range params {
+				form[k] = v
+			}
+			if sh.method == "GET" {
+				cr.Method = "POST"
+				form.Set("_method", "GET")
+			}
+			cr.ContentType = "application/x-www-form-urlencoded"
+			cr.Body = form.Encode()
+		} else if len(params) > 0 {
+			if cr.Query != "" {
+				cr.Query += "&"
+			}
+			cr.Query += params.Encode()
+		}
+		p.req = cr
+		plans = append(plans, p)
+	}
+
+	// ---- nodes ---------------------------------------------------------------------------
+	var cur *c19plan
+	path := func() string {
+		if cfg.legacy {
+			return "legacy14"
+		}
+		return "default"
+	}
+	forwarded := 0
+	handler := func(r *vsim.NetRequest) *vsim.NetReply {
+		cl := clusterOfHost(r.Host)
+		w.Logf("wire #%d %s %s%s cluster=%q auth=%q", r.Seq, r.Method, r.Host, r.Path, cl, r.Header.Get("Authorization"))
+		rep := &vsim.NetReply{Latency: time.Duration(1+w.Choose("lat-ms", 40)) * time.Millisecond}
+		if cl == "" {
+			// local Rails
+			switch {
+			case r.Path == "/arvados/v1/api_client_authorizations/current":
+				a := strings.SplitN(r.Header.Get("Authorization"), " ", 2)
+				var row *tokenRow
+				if len(a) == 2 {
+					row = tt.lookup(a[1])
+				}
+				if row == nil {
+					rep = errReply(401, "Not logged in")
+				} else {
+					rep = jsonReply(200, map[string]any{"kind": "arvados#apiClientAuthorization", "uuid": row.UUID, "api_token": row.Secret, "scopes": []string{"all"}})
+					w.Probe("legacy-token-resolved-by-rails")
+				}
+				rep.Latency = 2 * time.Millisecond // identical concurrent lookups must be interchangeable
+				return rep
+			case strings.Count(r.Path, "/") >= 4:
+				e := errReply(404, "Path not found")
+				e.Latency = rep.Latency
+				return e
+			default:
+				l := jsonReply(200, map[string]any{"kind": "arvados#list", "items": []any{}})
+				l.Latency = rep.Latency
+				return l
+			}
+		}
+		if cl == "?" {
+			w.Violation("c19/request-to-unconfigured-host", "%s %s%s", r.Method, r.Host, r.Path)
+			return nil
+		}
+		// ---- wire monitor: this request has left the home cluster --------------------------
+		forwarded++
+		w.Probe("forwarded-" + cur.shape)
+		route := "router"
+		if r.Header.Get("X-Forwarded-For") != "" {
+			route = "legacy-proxy"
+		}
+		for _, h := range wireHaystacks(r) {
+			for i, t := range cur.tokens {
+				if t.secret == "" || !strings.Contains(h[1], t.secret) {
+					continue
+				}
+				if t.kind == "legacy-known" && t.owner == cl {
+					continue // a legacy token that belongs to the remote itself may go there as it is
+				}
+				w.ViolationSig("c19/unsalted-secret-on-the-wire", route+":"+h[0]+":"+t.class(),
+					"request %q (%s, config=%s) carried token kind=%s in %s; its unsalted secret was sent to cluster %s in %s of the forwarded %s %s (route=%s). incoming tokens: %s",
+					cur.shape, cur.req.Method, path(), t.kind, cur.places[i], cl, h[0], r.Method, r.Path, route, describeTokens(cur))
+				return nil
+			}
+		}
+		// forwarded credentials must be the reference salting of an incoming token
+		if len(cur.tokens) > 0 {
+			allowed := map[string]bool{}
+			for _, t := range cur.tokens {
+				allowed[refSalt(t.text, cl, tt)] = true
+			}
+			auths := r.Header["Authorization"]
+			var sent []string
+			for _, a := range auths {
+				p := strings.SplitN(a, " ", 2)
+				if len(p) == 2 && (p[0] == "Bearer" || p[0] == "OAuth2") {
+					sent = append(sent, p[1])
+				} else {
+					sent = append(sent, a)
+				}
+			}
+			for _, src := range []string{r.Query, string(r.Body)} {
+				if v, err := url.ParseQuery(src); err == nil {
+					for _, rt := range v["reader_tokens"] {
+						var l []string
+						if json.Unmarshal([]byte(rt), &l) == nil {
+							sent = append(sent, l...)
+						}
+					}
+					sent = append(sent, v["api_token"]...)
+				}
+			}
+			if len(sent) == 0 {
+				w.Probe("forwarded-without-credentials")
+			}
+			for _, s := range sent {
+				if !allowed[s] {
+					kind := "?"
+					for _, t := range cur.tokens {
+						if p := strings.Split(t.text, "/"); s == t.text || (len(p) >= 3 && p[0] == "v2" && strings.Contains(s, p[1])) {
+							kind = t.kind
+						}
+					}
+					w.ViolationSig("c19/forwarded-token-is-not-the-reference-salt", route+":"+kind,
+						"request %q (config=%s): cluster %s was sent credential %q, which is not v2/<uuid>/HMAC-SHA1(secret, %q) of any incoming token nor an unchanged salted/foreign token. incoming tokens: %s",
+						cur.shape, path(), cl, s, cl, describeTokens(cur))
+					return nil
+				}
+				w.Probe("forwarded-credential-checked")
+			}
+		}
+		switch w.Choose("remote-answer", 4) {
+		case 0:
+			body := map[string]any{"uuid": strings.TrimPrefix(r.Path[strings.LastIndex(r.Path, "/"):], "/"), "kind": "arvados#object", "items": []any{}}
+			if strings.Contains(r.Path, "/collections/") {
+				rep = errReply(404, "Path not found")
+			} else {
+				j := jsonReply(200, body)
+				rep.Status, rep.Body = j.Status, j.Body
+			}
+		case 1:
+			e := errReply(404, "Path not found")
+			rep.Status, rep.Body = e.Status, e.Body
+		case 2:
+			e := errReply(500, "simulated")
+			rep.Status, rep.Body = e.Status, e.Body
+			w.Fault("remote-5xx")
+		default:
+			e := errReply(401, "Not logged in")
+			rep.Status, rep.Body = e.Status, e.Body
+		}
+		return rep
+	}
+	sys := newFedSys(w, cfg, handler)
+	defer sys.close()
+
+	done := 0
+	for i, p := range plans {
+		cur = p
+		w.Logf("request %d shape=%s config=%s %s %s places=%v kinds=%s", i, p.shape, path(), p.req.Method, p.req.Path, p.places, describeTokens(p))
+		var code int
+		fin := false
+		w.Spawn(fmt.Sprintf("client%d", i), func() {
+			rec := sys.serve(p.req)
+			code = rec.Code
+			fin = true
+			w.Logf("response %d", code)
+		})
+		w.Run(nil)
+		if w.Failed() || w.Truncated() {
+			return
+		}
+		if !fin {
+			w.Violation("c19/request-never-returned", "%s", strings.Join(w.Blocked(), "; "))
+			return
+		}
+		done++
+		for _, t := range p.tokens {
+			w.Probe("token-" + t.kind)
+		}
+		for _, pl := range p.places {
+			w.Probe("placement-" + pl)
+		}
+	}
+	w.SetEndState(fmt.Sprintf("%s|%d|%d", path(), done, forwarded))
+}
+
+func describeTokens(p *c19plan) string {
+	var s []string
+	for i, t := range p.tokens {
+		s = append(s, fmt.Sprintf("%s@%s(owner %s)=%q", t.kind, p.places[i], t.owner, t.text))
+	}
+	return strings.Join(s, ", ")
+}
